@@ -81,6 +81,9 @@ def make_generator(nd, cfg):
         return nd.MaxStepGenerator(base_step=1.0, num_steps=12)
     if cfg['step'] == 'scalar':
         return nd.MinStepGenerator(base_step=0.0078125, step_nom=1.0)
+    if cfg['step'] == 'near':       # the 'scalar' steps with a step ratio 2e-4 above the default one
+        return nd.MinStepGenerator(base_step=0.0078125, step_nom=1.0,
+                                   step_ratio=cfg['ratio'])
     if cstep:
         return nd.MinStepGenerator(base_step=None)
     return nd.MaxStepGenerator()
@@ -98,7 +101,7 @@ def construct(nd, cfg, shared_gen=None):
         kw['step'] = shared_gen
     elif cfg['step'] == 'scalar':
         kw['step'] = 0.0078125
-    elif cfg['step'] == 'gen':
+    elif cfg['step'] in ('gen', 'near'):
         kw['step'] = make_generator(nd, cfg)
     return cls(f, **kw)
 
@@ -178,7 +181,7 @@ def history_case(draw):
     ops = []
     for _ in range(nops):
         kind = draw(st.sampled_from(['construct', 'construct', 'call', 'call', 'call', 'call', 'set_n',
-                                     'set_order', 'set_method', 'share', 'clear', 'prepopulate', 'other']))
+                                     'set_order', 'set_method', 'share', 'clear', 'prepopulate', 'other', 'twin']))
         op = dict(op=kind, a=draw(st.integers(0, 999)), b=draw(st.integers(0, 999)),
                   c=draw(st.integers(0, 999)))
         ops.append(op)
@@ -203,7 +206,8 @@ class C09(Prop):
     rule = ('Histories: Hypothesis draws 2..12 operations from {construct, call at x, set n / order / '
             'real-step method then call then restore then call, construct with a step-generator instance '
             'shared with another object, clear the rule cache, pre-populate it with unrelated '
-            'configurations, use Gradient/Hessian/Hessdiag/Jacobian objects in between} over a pool of '
+            'configurations, use Gradient/Hessian/Hessdiag/Jacobian objects in between, use two objects whose step '
+            'ratios differ by 2e-4 one after the other} over a pool of '
             '%d configurations x 6 points (exactly rounded test functions).  After every call the full '
             'record (value, error_estimate, final_step, index, f_value) must be bit-identical to a fresh '
             'evaluation (new object, new generator, cache emptied); for 1 history in 40 the fresh evaluation '
@@ -293,6 +297,21 @@ class C09(Prop):
                                            exact_index=True)]
                     if kind in ('construct', 'share'):
                         continue
+                if kind == 'twin':
+                    # two objects that differ only in a step ratio 2e-4 apart (same steps otherwise),
+                    # used one after the other at the same point: neither may see the other's rules
+                    base = dict(POOL[op['a'] % N_DERIV])
+                    twins = [dict(base, step='scalar'),
+                             dict(base, step='near', ratio=2.0004 if base['n'] == 1 else 1.6003)]
+                    if op['c'] % 2:
+                        twins.reverse()
+                    for c2 in twins:
+                        with ctx.lib('no-exception', 'constructing %s' % c2):
+                            objs.append(dict(obj=construct(nd, c2), cfg=c2, gen_of=None, used=set()))
+                    queue[0:0] = [dict(op='call', a=len(objs) - 2, b=op['b'], c=0, exact_index=True),
+                                  dict(op='call', a=len(objs) - 1, b=op['b'], c=0, exact_index=True)]
+                    ctx.count('op=twin (step ratios 2e-4 apart)')
+                    continue
                 if kind == 'clear':
                     fd.FD_RULES.clear()
                     ctx.count('op=clear')
